@@ -944,6 +944,38 @@ def catalogue(ctx):
     names = sorted(CURVES)
     st = ctx.pmap(_catalogue_shard, [([nm], ctx.seed) for nm in names])
     st.notes["curves"] = len(names)
+    # look-alikes: a caller-defined curve that shares everything with a catalogued one but the generator (-G, 2G, 3G, all
+    # of order n) is another curve; multiplication on it starts from ITS generator, whichever backend serves
+    from btclib.curves import Curve, mult
+
+    errs = lib_errors()
+    for name in ("secp256k1", "secp256r1", "secp192k1"):
+        ec = CURVES[name]
+        p, a, b, n, h, G = ec.p, ec._a, ec._b, ec.n, ec.cofactor, ec.G
+        for gname, k in (("-G", n - 1), ("2G", 2), ("3G", 3)):
+            G2 = R.mul_fast(k, G, p, a)
+            for serving in (True, False):
+                with backend(serving):
+                    st.evals += 1
+                    st.nontrivial += 1
+                    case = {"like": name, "generator": gname, "bindings": serving}
+                    try:
+                        ec2 = Curve(p, a, b, G2, n, h, weakness_check=False)
+                    except errs as e:
+                        st.violation("C01/lookalike/genuine-curve-refused", case, repr(e)[:80], "a curve")
+                        continue
+                    if ec2 == ec or hash(ec2) == hash(ec):
+                        st.violation("C01/lookalike/equal-to-the-catalogued-curve", case, "equal", "different generator, different curve")
+                    for m in (1, 2, 5, n - 1):
+                        exp = R.mul_fast(m * k % n, G, p, a)
+                        for spelled, f in (("default-generator", lambda: mult(m, None, ec2)), ("explicit-generator", lambda: mult(m, ec2.G, ec2))):
+                            st.evals += 1
+                            try:
+                                got = f()
+                            except errs as e:
+                                got = "refused " + repr(e)[:40]
+                            if got != exp:
+                                st.violation("C01/lookalike/mult-uses-another-generator", dict(case, m=hex(m)[:10], call=spelled), str(got)[:40], str(exp)[:40])
     return st
 
 
